@@ -1,6 +1,6 @@
 CONSTANTS
-NAddr = 8
-Fam <- Fam8
+NAddr = 9
+Fam <- Fam9
 MaxSc = 400
 Mutant = 0
 Quirk = 1
